@@ -328,7 +328,8 @@ NOT_APPLICABLE = {
            "different technique (DESIGN.md section 3, C19)",
 }
 
-HOOK_COMMITS = ["91245af verif: guarded scheduling points in the temporary stack list (FOONATHAN_MEMORY_VERIF)"]
+HOOK_COMMITS = ["91245af verif: guarded scheduling points in the temporary stack list (FOONATHAN_MEMORY_VERIF)",
+                "5cd4631 verif: atomic seam for the process-wide leak counters (FOONATHAN_MEMORY_VERIF)"]
 
 ENGINE_TEXT = {
     "schedsim": "deterministic thread-schedule simulator: real OS threads parked and released one at a time by a "
